@@ -103,7 +103,8 @@ def init {C : Type} (t : Table) (m : Mode) (c0 : C) : St C :=
 /-- what the statements of a section do on the content its connection sees -/
 structure Out (C V : Type) where
   ok : Bool          -- the section ends normally (else with an exception)
-  wrote : Bool       -- a data-changing statement was attempted
+  began : Bool       -- a data-changing statement was attempted (sqlite3 opens a transaction before it)
+  wrote : Bool       -- a data-changing statement succeeded
   content : C        -- the content the connection sees when the section stops
   val : V            -- what the section returns / raises
 
@@ -135,7 +136,8 @@ def sharedAfter {C V : Type} (sec : Sec) (o : Out C V) (view : C) (st : St C) : 
   let closes := if o.ok then sec.shared.closeOk else sec.shared.closeErr
   let st1 : St C :=
     if commits then { st with committed := c', pending := none, inTx := false }
-    else { st with pending := if changed then some c' else st.pending, inTx := st.inTx || w }
+    else { st with pending := if changed then some c' else st.pending,
+                   inTx := st.inTx || ((o.began || o.wrote) && sec.writes) }
   if closes then { st1 with sharedOpen := false, pending := none, inTx := false } else st1
 
 /-- the database after a section that ran on a connection opened for the call:
